@@ -24,7 +24,8 @@ Semantics (what the language prescribes; sources: README, compiler/src/tests/*.r
   * `x = e` updates the nearest binding of x in the current function (innermost block outwards) or creates x in the current block;
     a block's own names vanish at its end; names of the enclosing module are visible in a function by reference, written to only
     through `modify`;
-  * `from a to|through b [step s][, n]`: a then b are evaluated once; the body runs while n < b (<= for through); after the body -
+  * `from a to|through b [step s][, n]`: a then b are evaluated once (n holds a when b is evaluated - it matters when n names an
+    existing variable that b mentions); the body runs while n < b (<= for through); after the body -
     and after `continue` - s is evaluated and added to n; `break` leaves the loop; n is readable in the body; afterwards n is gone,
     unless it names an existing variable (then that variable holds the first value that failed the test);
   * `&&` / `||` evaluate their right operand only when the left one does not decide; `(x) or y` evaluates y only when x is nil;
@@ -154,7 +155,6 @@ class Interp:
         elif k == "from":
             _, start, end, inclusive, step, name, body = st
             a = self.expr(start, scopes, outer, me)
-            b = self.expr(end, scopes, outer, me)
             collision = None
             if name is not None:
                 for s in reversed(scopes):
@@ -164,7 +164,8 @@ class Interp:
                 if collision is None and outer is not None and name in outer:
                     raise Unsupported("loop counter names a captured variable")
             counter = collision if collision is not None else Cell(a)
-            counter.v = a
+            counter.v = a                                   # the counter holds the start value before the end bound is evaluated
+            b = self.expr(end, scopes, outer, me)
             hidden = {}
             if name is not None and collision is None:
                 hidden[name] = counter
